@@ -6,6 +6,7 @@
    (Model/Precision.v roundF), not proved. Statements only. *)
 From PV Require Import Model.Precision Model.Segment Proofs.PrecisionP.
 From Coq Require Reals.
+From Flocq Require Core.
 From PV Require Proofs.RoundFloatP.
 
 Theorem C13_nearest_within_half_unit : forall n num den, 0 < den ->
@@ -46,7 +47,7 @@ Proof. exact truncation_refuted. Qed.
    unit P > 0 (in particular the double nearest 10^-n) the stored bound is within half a unit of the requested value,
    up to a few units of rounding noise.  Relies on the standard library's real-number axioms (printed below). *)
 Module Binary64.
-Import Reals. Local Open Scope R_scope.
+Import Reals Flocq.Core.Core. Local Open Scope R_scope.
 Theorem C13_binary64_within_half_unit : forall P x : R, 0 < P ->
   Rabs (RoundFloatP.rfloat RoundFloatP.rnd64 P x - x)
   <= P / 2 + 8 * RoundFloatP.u64 * (Rabs x + P) + 8 * RoundFloatP.eta64 * (P + 1).
@@ -57,6 +58,16 @@ Theorem C13_rounded_arithmetic_within_half_unit : forall (u eta : R) (rnd : R ->
   (forall y, exists e t, Rabs e <= u /\ Rabs t <= eta /\ rnd y = y * (1 + e) + t) ->
   Rabs (RoundFloatP.rfloat rnd P x - x) <= P / 2 + 8 * u * (Rabs x + P) + 8 * eta * (P + 1).
 Proof. intros u eta rnd P x Hu He Hu8 HP Hr. now apply (RoundFloatP.rfloat_within_half_unit_simple u eta). Qed.
+(* no drift at the binary64 level: a bound already on the float grid - rnd64 (k * P), |k| <= 2^40 ticks, P >= 2^-1000 - is
+   returned unchanged, and therefore rounding twice is rounding once *)
+Theorem C13_binary64_on_grid_bounds_unchanged : forall (P : R) (k : Z),
+  0 < P -> (Z.abs k <= 2 ^ 40)%Z -> bpow radix2 (-1000) <= P ->
+  RoundFloatP.rfloat RoundFloatP.rnd64 P (RoundFloatP.rnd64 (IZR k * P)) = RoundFloatP.rnd64 (IZR k * P).
+Proof. exact RoundFloatP.binary64_on_grid_fixed. Qed.
+Theorem C13_binary64_rounding_twice_is_rounding_once : forall P x : R,
+  0 < P -> bpow radix2 (-1000) <= P -> (Z.abs (RoundFloatP.ticks64 P x) <= 2 ^ 40)%Z ->
+  RoundFloatP.rfloat RoundFloatP.rnd64 P (RoundFloatP.rfloat RoundFloatP.rnd64 P x) = RoundFloatP.rfloat RoundFloatP.rnd64 P x.
+Proof. exact RoundFloatP.binary64_idempotent. Qed.
 End Binary64.
 
 Example C13_nonvacuous :
@@ -73,3 +84,5 @@ Print Assumptions C13_equal_roundings_give_equal_hashes.
 Print Assumptions C13_truncation_refuted.
 Print Assumptions Binary64.C13_binary64_within_half_unit.
 Print Assumptions Binary64.C13_rounded_arithmetic_within_half_unit.
+Print Assumptions Binary64.C13_binary64_on_grid_bounds_unchanged.
+Print Assumptions Binary64.C13_binary64_rounding_twice_is_rounding_once.
